@@ -1,3 +1,52 @@
-From MW Require Import Num.
-Theorem placeholder : True. Proof. exact I. Qed.
-Print Assumptions placeholder.
+(*  C17 — A rejected call changes nothing.
+   
+    The model returns, for a rejected call, the state after whatever the code had already assigned when it
+    raised; the theorems say that state is the one before the call (Leibniz equality):
+     * add_arm, remove_arm, warm_start: for EVERY policy combination, every argument;
+     * fit / partial_fit: for context-free bandits, TreeBandit and Radius/KNearest/LSHNearest - including the
+       shape errors from inside training (context width, fewer rows than clusters are rejected before anything
+       is assigned in the repaired code: fixes D9, Clusters history, TreeBandit width);
+     * predict / predict_expectations before the first fit.
+    ..._partial: linear policies and Clusters over linear policies can raise from np.linalg.inv inside a per-arm
+    task after earlier arms were updated (l2_lambda = 0 only); that branch is modelled, not excluded, and is
+    outside the theorem. Ill-typed arguments are outside the model and covered by the 19-class relation. *)
+From Coq Require Import List ZArith Bool Arith QArith Qcanon Permutation.
+From MW Require Import Num Assoc AssocFacts Rng Par CF CFInv CFClean CFForget CFSpec Matrix Lin Warm WarmInv Nbr NbrFacts NbrIndep LshFacts Clu Tree CellFacts Mab FacadeCF FacadeArms MoreFacts NumLaws CFAlg Sim Extra QcInst.
+Import ListNotations.
+
+Theorem C17_rejected_arm_or_warm_start_call_changes_nothing :
+  forall (R A G : Type) (N : Num R) (aeqb : A -> A -> bool) (RG : RngOps R G) (m : (@mab R A G)) (o : (@op R A)),
+  match o with
+  | AddArm _ _ | RemoveArm _ | WarmStart _ _ _ => True
+  | _ => False
+  end -> snd (step N aeqb RG m o) = ORejected -> fst (step N aeqb RG m o) = m.
+Proof. exact @rejected_nontraining_call_changes_nothing. Qed.
+Print Assumptions C17_rejected_arm_or_warm_start_call_changes_nothing.
+
+Theorem C17_rejected_training_call_changes_nothing_partial :
+  forall (R A G : Type) (N : Num R) (aeqb : A -> A -> bool) (RG : RngOps R G) 
+    (m : (@mab R A G)) (ds : list A) (rs : list R) (cx : option (@ctxs R)) (orc : (@oracle R A)) 
+    (partial : bool),
+  never_raises (m_imp m) ->
+  let o := if partial then PartialFit ds rs cx orc else Fit ds rs cx orc in
+  snd (step N aeqb RG m o) = ORejected -> fst (step N aeqb RG m o) = m.
+Proof. exact @rejected_training_call_changes_nothing. Qed.
+Print Assumptions C17_rejected_training_call_changes_nothing_partial.
+
+Theorem C17_query_before_fit_rejected_without_change :
+  forall (R A G : Type) (N : Num R) (aeqb : A -> A -> bool) (RG : RngOps R G) 
+    (m : (@mab R A G)) (cx : option (@ctxs R)) (orc : (@oracle R A)),
+  m_fitted m = false ->
+  step N aeqb RG m (Predict cx orc) = (m, ORejected) /\
+  step N aeqb RG m (PredictExp cx orc) = (m, ORejected).
+Proof. exact @rejected_query_before_fit. Qed.
+Print Assumptions C17_query_before_fit_rejected_without_change.
+
+Theorem C17_rejected_add_arm_unchanged :
+  forall (R A G : Type) (N : Num R) (aeqb : A -> A -> bool) (RG : RngOps R G) 
+    (m : (@mab R A G)) (a : A) (bz : option (A -> R -> R)),
+  snd (step N aeqb RG m (AddArm a bz)) = ORejected -> fst (step N aeqb RG m (AddArm a bz)) = m.
+Proof. exact @add_arm_rejected_unchanged. Qed.
+Print Assumptions C17_rejected_add_arm_unchanged.
+
+
